@@ -313,7 +313,9 @@ pub fn run(run: &Run) {
     run.set_rule("a fixed program with every documentable position (struct, field, unit enum, unit variant, tagged enum, tagged variant, struct-variant field, alias); each position gets 0-3 doc strings written as ///, /** */ or #[doc = \"..\"], built from benign pieces {words, //, #, back-tick, double quote, ''', /*, code-like text} plus at most one terminator-class hazard kind {newline, */, \"\"\", backslash, trailing backslash}; a unique sentinel follows every piece. Oracle: every sentinel occurrence in the output lies inside a comment token of the target language (Python: comment token or expression-statement string, judged by CPython) and the file still tokenises; every sentinel is reproduced. Non-trivial = doc string carries a hazard; distinct by (position, doc string).");
     run.assume("comment/string boundaries are decided by the harness tokeniser for TS/Kotlin/Swift/Scala/Go (language lexical rules incl. nested block comments) and by CPython's tokenize/ast for Python");
     replay_regress(run, &C15);
-    search(run, &C15, run.tier.pick(3000, 100_000));
+    search(run, &C15, run.tier.pick(3000, 100_000));    if run.tier == Tier::Thorough {
+        crate::fuzz::campaign(run, "c15_docs", 600_000, 256);
+    }
 }
 
 pub fn replay(run: &Run, case: &serde_json::Value) -> Result<Vec<Violation>, String> {
